@@ -564,7 +564,8 @@ Proof.
   - (* parsed *)
     destruct (v_canonical v bs y D) as (Hbs & Hy & Hsel & _).
     destruct (v_selector y Hy) as [Hm Hl]. rewrite <- Hbs in Hm, Hl. rewrite Hsel in Hm.
-    rewrite Hm. apply Nat.leb_le in Hl. rewrite Hl. rewrite Hbs at 2. rewrite bytes_eqb_refl.
+    assert (bytes_eqb (encode_v y) bs = true) as Hc by (rewrite Hbs; apply bytes_eqb_refl).
+    rewrite Hm. apply Nat.leb_le in Hl. rewrite Hl, Hc.
     cbn [negb andb].
     destruct e as [|n|ext|i x|r]; cbn [apply_edit] in bs.
     + (* ESame *) subst bs. rewrite v_roundtrip in D by exact Hv. inversion D; subst. cbn [option_eqb]. rewrite ixv_eqb_refl. reflexivity.
